@@ -13,9 +13,11 @@ import (
 
 // me moves between A, B, C; neighbours n1 (445 m from A), n2 (inside A's bounding square, 1.2 km away,
 // i.e. outside the circle), n3 (near C only). Radius 1000 m.
-var vhRoamMe = [3][2]string{{"33.000", "-115.000"}, {"33.006", "-115.006"}, {"33.046", "-115.000"}}
-var vhRoamN = [3][2]string{{"33.004", "-115.000"}, {"33.008", "-115.009"}, {"33.050", "-115.000"}}
-var vhRoamIDs = [3]string{"n1", "n2", "n3"}
+// D is 1334 m north of A (further than the radius, closer than twice the radius); n4 lies between them,
+// inside the radius of both; x1 is next to A but never matches the "n*"-style patterns.
+var vhRoamMe = [4][2]string{{"33.000", "-115.000"}, {"33.006", "-115.006"}, {"33.046", "-115.000"}, {"33.012", "-115.000"}}
+var vhRoamN = [4][2]string{{"33.004", "-115.000"}, {"33.008", "-115.009"}, {"33.050", "-115.000"}, {"33.006", "-115.000"}}
+var vhRoamIDs = [4]string{"n1", "n2", "n3", "n4"}
 
 func vhDist(s *Server, a, b string) float64 {
 	col, _ := s.cols.Get("fleet")
@@ -28,60 +30,80 @@ func vhPatMatch(pat int, id string) bool {
 		return true // *
 	case 1:
 		return id == "n2" // exact id
+	case 2:
+		return id == "n1" || id == "n2" // n[12]
 	}
-	return id == "n1" || id == "n2" // n[12]
+	return true // n*: everything but x1
 }
 
-//verif:cfg b_positions=3x3_moves b_neighbours=3(one_inside_the_bounding_square_but_outside_the_circle) b_pattern=*|exact|n[12] b_nodwell=both ignorego=1
+//verif:cfg b_positions=4_positions,_every_sequence_of_2_consecutive_moves(one_move_longer_than_the_radius_and_shorter_than_twice_it) b_neighbours=4(one_inside_the_bounding_square_but_outside_the_circle,one_within_the_radius_of_two_positions)+1_not_matching_the_pattern b_pattern=*|exact|n[12]|n* b_nodwell=both ignorego=1
 func VH_C20_roam() {
 	s := vhServer()
-	pat := vchoose(3)
+	pat := vchoose(4)
 	nodwell := vnondetBool()
 	args := []string{"SETCHAN", "roamch", "NEARBY", "fleet", "FENCE"}
 	if nodwell {
 		args = append(args, "NODWELL")
 	}
-	args = append(args, "ROAM", "fleet", [3]string{"*", "n2", "n[12]"}[pat], "1000")
+	args = append(args, "ROAM", "fleet", [4]string{"*", "n2", "n[12]", "n*"}[pat], "1000")
 	_, _, err := vhDo(s, args...)
 	vassert("C20.setchan_ok", err == nil)
 	h := vhHook(s, "roamch")
 	for i, id := range vhRoamIDs {
 		vhDo(s, "SET", "fleet", id, "POINT", vhRoamN[i][0], vhRoamN[i][1])
 	}
-	p1, p2 := vchoose(3), vchoose(3)
-	vhDo(s, "SET", "fleet", "me", "POINT", vhRoamMe[p1][0], vhRoamMe[p1][1])
-	var dOld [3]float64
-	for i, id := range vhRoamIDs {
-		dOld[i] = vhDist(s, "me", id)
-	}
-	_, d, _ := vhDo(s, "SET", "fleet", "me", "POINT", vhRoamMe[p2][0], vhRoamMe[p2][1])
-	msgs := FenceMatch(h.Name, h.ScanWriter, h.Fence, h.Metas, &d)
-
-	var nearSeen, farSeen [3]int
-	metersOK := true
-	for _, m := range msgs {
+	vhDo(s, "SET", "fleet", "x1", "POINT", "33.001", "-115.000")
+	pos := vchoose(4)
+	vhDo(s, "SET", "fleet", "me", "POINT", vhRoamMe[pos][0], vhRoamMe[pos][1])
+	for move := 0; move < 2; move++ {
+		var dOld [4]float64
 		for i, id := range vhRoamIDs {
-			dn := vhDist(s, "me", id)
-			if gjson.Get(m, "nearby.id").String() == id {
-				nearSeen[i]++
-				metersOK = metersOK && math.Abs(gjson.Get(m, "nearby.meters").Float()-dn) < 0.002
+			dOld[i] = vhDist(s, "me", id)
+		}
+		xOld := vhDist(s, "me", "x1")
+		pos = vchoose(4)
+		_, d, _ := vhDo(s, "SET", "fleet", "me", "POINT", vhRoamMe[pos][0], vhRoamMe[pos][1])
+		msgs := FenceMatch(h.Name, h.ScanWriter, h.Fence, h.Metas, &d)
+
+		var nearSeen, farSeen [4]int
+		xSeen := 0
+		metersOK := true
+		for _, m := range msgs {
+			if gjson.Get(m, "nearby.id").String() == "x1" || gjson.Get(m, "faraway.id").String() == "x1" {
+				xSeen++
 			}
-			if gjson.Get(m, "faraway.id").String() == id {
-				farSeen[i]++
-				metersOK = metersOK && math.Abs(gjson.Get(m, "faraway.meters").Float()-dn) < 0.002
+			for i, id := range vhRoamIDs {
+				dn := vhDist(s, "me", id)
+				if gjson.Get(m, "nearby.id").String() == id {
+					nearSeen[i]++
+					metersOK = metersOK && math.Abs(gjson.Get(m, "nearby.meters").Float()-dn) < 0.002
+				}
+				if gjson.Get(m, "faraway.id").String() == id {
+					farSeen[i]++
+					metersOK = metersOK && math.Abs(gjson.Get(m, "faraway.meters").Float()-dn) < 0.002
+				}
 			}
 		}
+		for i, id := range vhRoamIDs {
+			dn := vhDist(s, "me", id)
+			was, is := dOld[i] <= 1000, dn <= 1000
+			wantNear := vhPatMatch(pat, id) && is && !(nodwell && was)
+			wantFar := vhPatMatch(pat, id) && was && !is
+			vassert("C20.nearby_exact", nearSeen[i] == vhB2I(wantNear))
+			vassert("C20.faraway_exact", farSeen[i] == vhB2I(wantFar))
+		}
+		{
+			dn := vhDist(s, "me", "x1")
+			was, is := xOld <= 1000, dn <= 1000
+			want := 0
+			if pat == 0 {
+				want = vhB2I(is && !(nodwell && was)) + vhB2I(was && !is)
+			}
+			vassert("C20.pattern_filters_neighbours", xSeen == want)
+		}
+		vassert("C20.meters_true_distance", metersOK)
+		vobs("roam", move, pos, pat, nodwell, len(msgs))
 	}
-	for i, id := range vhRoamIDs {
-		dn := vhDist(s, "me", id)
-		was, is := dOld[i] <= 1000, dn <= 1000
-		wantNear := vhPatMatch(pat, id) && is && !(nodwell && was)
-		wantFar := vhPatMatch(pat, id) && was && !is
-		vassert("C20.nearby_exact", nearSeen[i] == vhB2I(wantNear))
-		vassert("C20.faraway_exact", farSeen[i] == vhB2I(wantFar))
-	}
-	vassert("C20.meters_true_distance", metersOK)
-	vobs("roam", p1, p2, pat, nodwell, len(msgs))
 }
 
 func vhB2I(b bool) int {
